@@ -66,12 +66,22 @@ func tagNameOf(format string) string {
 // it with FlattenAnonymousFields) to the four formats.
 var agreeFormats = []string{"json", "yaml", "toml", "cue", "yamlflat"}
 
-// embeddedKey says where the leaves of an untagged embedded struct field live
-// in a document (read off the libraries and confirmed on the unmodified tree):
-// encoding/json and Cue promote them into the parent, and so does the YAML
-// decoder with FlattenAnonymous; yaml.v2 alone nests them under the
-// lower-cased type name, go-toml under the type name.
+// embeddedKey says where the leaves of an embedded struct field live in a
+// document (read off the libraries and confirmed on the unmodified tree).
+// Untagged: encoding/json and Cue promote them into the parent, and so does
+// the YAML decoder with FlattenAnonymous; yaml.v2 alone nests them under the
+// lower-cased type name, go-toml under the type name.  With a dials tag (or a
+// format tag) on the embedding field every library treats it as an ordinary
+// named field and nests under that name; only the YAML decoder with
+// FlattenAnonymous still promotes (it hoists anonymous fields whatever their
+// tags).
 func embeddedKey(sf reflect.StructField, format string) (key string, promoted bool) {
+	if format == "yamlflat" {
+		return "", true
+	}
+	if k := keyFor(sf, format); k != "" {
+		return k, false
+	}
 	switch format {
 	case "yaml":
 		return strings.ToLower(sf.Name), false
